@@ -129,6 +129,8 @@ class SBool(CantSympify):
     __str__ = __repr__
 
     def __format__(self, spec):
+        if spec == "d":
+            return "1" if bool(self) else "0"
         return repr(self)
 
     @property
@@ -367,6 +369,10 @@ class SNum(CantSympify):
         return self._text("repr")
 
     def __format__(self, spec):
+        if spec == "d":
+            if self.v.kind in ("int", "bool"):
+                return self._text("str").replace("np.int64(", "").rstrip(")") if False else _text_of(SNum(self.v, int), "str")
+            raise ValueError("Unknown format code 'd' for object of type '%s'" % self.tag.__name__)
         if spec:
             raise Abort("format spec %r on a proxy" % spec)
         return self._text("format")
